@@ -439,3 +439,21 @@ Lemma always_unreached_fixed :
   machine_eff [S_ Always false; S_ Always false] [(0, 1%N)] = spec [S_ Always false; S_ Always false] [(0, 1%N)]
   /\ machine_eff [S_ Always true; S_ Always true] [(0, 5%N)] = spec [S_ Always true; S_ Always true] [(0, 5%N)].
 Proof. split; reflexivity. Qed.
+
+(* recover / re-panic outcomes follow from the call sequence *)
+Lemma outcome_matches sh kinds tr cur :
+  consistent (effective sh) tr -> machine_outcome sh kinds tr cur = spec_outcome sh kinds tr cur.
+Proof. intros C. unfold machine_outcome, spec_outcome. now rewrite (machine_eff_eq_spec sh tr C). Qed.
+
+(* after a recover no panic is in flight unless a later deferred call panics *)
+Lemma outcome_recover_last kinds cs cur i :
+  nth i kinds DPlain = DRecover ->
+  (forall c, In c cs -> nth (fst c) kinds DPlain = DPlain) ->
+  forall p, snd (outcome kinds ((i, p) :: cs) cur) = false.
+Proof.
+  intros Hi Hcs p. cbn [outcome fst]. rewrite Hi.
+  assert (G : forall b, outcome kinds cs b = ([], b)).
+  { induction cs as [|c r IH]; intros b; [reflexivity|]. cbn [outcome].
+    rewrite (Hcs c (or_introl eq_refl)). apply IH. intros c' Hc'. apply Hcs. now right. }
+  now rewrite G.
+Qed.
